@@ -7,6 +7,7 @@ package main
 // published metadata.
 
 import (
+	"github.com/crewjam/saml/samlidp"
 	"bytes"
 	"compress/flate"
 	"crypto"
@@ -991,6 +992,7 @@ func (c *Ctx) genC06() {
 		c.emit("idpserve", sc.toks(), impl, sc.scopeOracle(d, note))
 	}
 	c.signerFaults()
+	c.idpReconfiguration()
 	c.abortedReplies()
 }
 
@@ -1091,6 +1093,69 @@ func (f faultySigner) Sign(r io.Reader, d []byte, opts crypto.SignerOpts) ([]byt
 // signerFaults: "both the assertion and the enclosing response carry enveloped signatures that verify … (private key or
 // external signer)" — when the external signer fails on the first, the second or every call, the IdP emits either nothing
 // (an error reply) or a form whose two signatures verify; never a form with a signature missing.
+// idpReconfiguration: one IdentityProvider value whose signing configuration changes between replies (signature method raised,
+// certificate rolled over, key replaced by an external signer): every reply is signed with the configuration in force when it
+// is made, and verifies under the certificate the IdP advertises at that moment
+func (c *Ctx) idpReconfiguration() {
+	now := baseTime
+	saml.TimeNow = func() time.Time { return now }
+	saml.Clock = dsig.NewFakeClockAt(now)
+	saml.RandReader = &detReader{c: c}
+	xmlenc.RandReader = &detReader{c: c}
+	entity := "https://sp.example.com/reconfigured"
+	reg := &rollingRegistry{md: &saml.EntityDescriptor{EntityID: entity, SPSSODescriptors: []saml.SPSSODescriptor{{
+		AssertionConsumerServices: []saml.IndexedEndpoint{{Binding: saml.HTTPPostBinding, Location: entity + "/acs", Index: 1}}}}}}
+	k1, k2 := c.key("idp"), c.key("idp2")
+	idp := &saml.IdentityProvider{Key: k1.Key, Certificate: k1.Cert, Logger: logger.DefaultLogger, MetadataURL: mustURL(idpMetadataURL),
+		SSOURL: mustURL(idpSSOURL), ServiceProviderProvider: reg,
+		SessionProvider: fixedSession{&saml.Session{ID: "sess-r", NameID: "alice", UserName: "alice", CreateTime: now, ExpireTime: now.Add(time.Hour), Index: "idx-r"}}}
+	calls := 0
+	phases := []struct {
+		name  string
+		apply func()
+		cert  *x509.Certificate
+		meth  string
+	}{
+		{"initial", func() {}, k1.Cert, ""},
+		{"method-raised", func() { idp.SignatureMethod = dsig.RSASHA256SignatureMethod }, k1.Cert, dsig.RSASHA256SignatureMethod},
+		{"certificate-rolled-over", func() { idp.Key, idp.Certificate = k2.Key, k2.Cert }, k2.Cert, dsig.RSASHA256SignatureMethod},
+		{"external-signer", func() {
+			idp.Key, idp.Certificate = nil, k1.Cert
+			idp.Signer = faultySigner{k: k1.Key, n: &calls, failAt: map[int]bool{}}
+		}, k1.Cert, dsig.RSASHA256SignatureMethod},
+		{"method-lowered", func() { idp.SignatureMethod = "" }, k1.Cert, ""},
+	}
+	for _, ph := range phases {
+		ph.apply()
+		before := calls
+		res := safely(func() string {
+			w := httptest.NewRecorder()
+			r, _ := http.NewRequest("GET", "https://idp.example.com/login/reconf", nil)
+			idp.ServeIDPInitiated(w, r, entity, "rs")
+			body := w.Body.String()
+			if !strings.Contains(body, `name="SAMLResponse"`) {
+				return fmt.Sprintf("no-form-%d", w.Code)
+			}
+			d, note := c.decodeForm(body, ph.cert, expectedSigAlg(ph.meth), nil)
+			if d == nil {
+				return "undecodable: " + note
+			}
+			if d.sigNote != "" {
+				return "bad-signatures: " + d.sigNote
+			}
+			return "signed-form"
+		})
+		why := ""
+		if res != "signed-form" {
+			why = "key=c06-signature:reconfigured after the change '" + ph.name + "' on one IdentityProvider value the reply is not signed with the configuration in force: " + res
+		} else if ph.name == "external-signer" && calls == before {
+			why = "key=c06-signature:reconfigured the external signer configured in place of the key was never asked to sign"
+		}
+		c.count("c06-idp-reconfiguration", ph.name)
+		c.emitOneWay("reconfigure", []string{encStr(ph.name)}, strings.SplitN(res, ":", 2)[0], why)
+	}
+}
+
 func (c *Ctx) signerFaults() {
 	now := baseTime
 	saml.TimeNow = func() time.Time { return now }
@@ -1882,7 +1947,80 @@ func advertises(keys []mdKey) bool {
 	return false
 }
 
+// c08ReRegistration: the bundled server — a service registers without an encryption key, then again (same name, same entity ID)
+// with one, then with another: each reply follows the metadata registered at that moment
+func (c *Ctx) c08ReRegistration() {
+	const entity = "https://spa.example.com/md"
+	md := func(keyName string) []byte {
+		kd := ""
+		if keyName != "" {
+			kd = `<KeyDescriptor use="encryption"><KeyInfo xmlns="http://www.w3.org/2000/09/xmldsig#"><X509Data><X509Certificate>` +
+				base64.StdEncoding.EncodeToString(c.key(keyName).Cert.Raw) + `</X509Certificate></X509Data></KeyInfo></KeyDescriptor>`
+		}
+		return []byte(`<EntityDescriptor xmlns="urn:oasis:names:tc:SAML:2.0:metadata" entityID="` + entity + `"><SPSSODescriptor protocolSupportEnumeration="urn:oasis:names:tc:SAML:2.0:protocol">` + kd +
+			`<AssertionConsumerService Binding="` + saml.HTTPPostBinding + `" Location="` + entity + `/acs" index="1"/></SPSSODescriptor></EntityDescriptor>`)
+	}
+	now := baseTime
+	saml.TimeNow = func() time.Time { return now }
+	saml.RandReader = &detReader{c: c}
+	xmlenc.RandReader = &detReader{c: c}
+	st := &samlidp.MemoryStore{}
+	must(st.Put("/sessions/sess1", &saml.Session{ID: "sess1", NameID: "alice", UserName: "alice", ExpireTime: now.Add(time.Hour)}))
+	k := c.key("idp")
+	srv, err := samlidp.New(samlidp.Options{URL: mustURL("https://idp.example.com"), Key: k.Key, Certificate: k.Cert, Store: st, Logger: logger.DefaultLogger})
+	must(err)
+	sso := func() string {
+		spk := c.key("sp")
+		s := &saml.ServiceProvider{EntityID: entity, Key: spk.Key, Certificate: spk.Cert, MetadataURL: mustURL(entity), AcsURL: mustURL(entity + "/acs"), IDPMetadata: srv.IDP.Metadata()}
+		ar, err := s.MakeAuthenticationRequest("https://idp.example.com/sso", saml.HTTPRedirectBinding, saml.HTTPPostBinding)
+		must(err)
+		u, err := ar.Redirect("rs", s)
+		must(err)
+		r := httptest.NewRequest("GET", "/sso?"+u.RawQuery, nil)
+		r.AddCookie(&http.Cookie{Name: "session", Value: "sess1"})
+		rec := httptest.NewRecorder()
+		srv.ServeHTTP(rec, r)
+		o, _ := observeForm(rec.Body.Bytes())
+		v, _ := inputVal(o, "SAMLResponse")
+		x, _ := base64.StdEncoding.DecodeString(v)
+		switch {
+		case bytes.Contains(x, []byte("<saml:Assertion")):
+			return "plaintext"
+		case bytes.Contains(x, []byte("EncryptedAssertion")):
+			doc := etree.NewDocument()
+			if doc.ReadFromBytes(x) == nil && doc.Root() != nil {
+				if ed := doc.Root().FindElement("//EncryptedAssertion/EncryptedData"); ed != nil {
+					for _, kn := range []string{"sp", "sp2"} {
+						if p, err := xmlenc.Decrypt(c.key(kn).Key, ed); err == nil && bytes.Contains(p, []byte("Assertion")) {
+							return "encrypted-to-" + kn
+						}
+					}
+				}
+			}
+			return "encrypted-to-nobody"
+		}
+		return fmt.Sprintf("no-response-%d", rec.Code)
+	}
+	put := func(keyName string) {
+		rec := httptest.NewRecorder()
+		srv.ServeHTTP(rec, httptest.NewRequest("PUT", "/services/svc1", bytes.NewReader(md(keyName))))
+	}
+	var got []string
+	want := []string{"plaintext", "encrypted-to-sp", "encrypted-to-sp2", "plaintext", "encrypted-to-sp"}
+	for _, kn := range []string{"", "sp", "sp2", "", "sp"} {
+		put(kn)
+		got = append(got, safely(sso))
+	}
+	orc := ""
+	if strings.Join(got, ",") != strings.Join(want, ",") {
+		orc = "key=re-registered-encryption-key after PUT /services/svc1 with no key, the SP key, another key, no key, the SP key the replies were " + strings.Join(got, ",") + " (want " + strings.Join(want, ",") + ")"
+	}
+	c.count("c08-re-registration", "5 steps")
+	c.emitOneWay("reregister", nil, strings.Join(got, ","), orc)
+}
+
 func (c *Ctx) genC08() {
+	defer c.c08ReRegistration()
 	choices := c.certChoices()
 	// 1. key-descriptor layouts through the real ServeIDPInitiated / ServeSSO
 	n := 500
